@@ -14,3 +14,4 @@ import Woodpile.Props.C20
 import Woodpile.Proofs.IovecArena
 import Woodpile.Proofs.IovecHeap
 import Woodpile.Proofs.IovecFootprint
+import Woodpile.Proofs.IovecOpsCheck
